@@ -186,6 +186,16 @@ func main() {
 		addCase(c3)
 	}
 
+	// `getline var` in CSV/TSV mode after the fields were used (F-C02-8), API and command
+	for _, mode := range []string{"csv", "tsv", "csv-header"} {
+		for _, src := range []string{`BEGIN { n = NF; getline x; print $1 }`, `{ n = NF; getline A[1]; print $3 }`, `{ print $1; getline x; print $2, $3, $4 }`} {
+			c := api("csv-getline-var", src, "a\nb,c,d\ne\tf\tg\th\ni\n")
+			c.InMode = mode
+			addCase(c)
+		}
+	}
+	addCase(cli("csv-getline-var-cli", "a,b,c\n", "-i", "csv", `BEGIN { n = NF; getline x; print $1 }`))
+
 	// ---- 5. recursion depth: exactly at the limit is fine, one more is an error, never a crash ----
 	// Depths up to a few thousand run in-process (harmless for the Go stack even if the limit were
 	// missing); unbounded recursion runs in a child process, where losing the limit shows up as a
@@ -302,6 +312,7 @@ func main() {
 	t0 := time.Now()
 	staticPass(o, rep, static)
 	rsCorrespondence(o, rep)
+	fieldsCorrespondence(o, rep, r, thorough)
 	if os.Getenv("C02_DEBUG") != "" {
 		fmt.Fprintf(os.Stderr, "TIME static pass %v\n", time.Since(t0))
 	}
@@ -487,6 +498,97 @@ func rsCorrespondence(o hx.Opts, rep *hx.Report) {
 		}
 		if impl != a {
 			rep.Mismatch(hx.Mismatch{Class: "rs-one-byte", Input: fmt.Sprintf("RS = byte %d", i), Impl: impl, Model: a})
+		}
+	}
+}
+
+// model of the CSV-mode field slices (f_run) vs the implementation: sequences of records,
+// `getline var`, NF uses and $i reads; the model says "panic" exactly when ExecProgram panics
+func fieldsCorrespondence(o hx.Opts, rep *hx.Report, r *hx.Rand, thorough bool) {
+	n := 250
+	if thorough {
+		n = 6000
+	}
+	type seq struct {
+		ops   []string
+		src   string
+		input string
+	}
+	var seqs []seq
+	gen := func(i int) seq {
+		var ops []string
+		var in strings.Builder
+		var src strings.Builder
+		line := func(k int) string { return strings.TrimSuffix(strings.Repeat("x,", k), ",") + "\n" }
+		body := func(first bool) string {
+			var b strings.Builder
+			for j := r.Intn(5); j > 0; j-- {
+				switch r.Intn(4) {
+				case 0:
+					ops = append(ops, "N")
+					b.WriteString("n = NF; ")
+				case 1, 2:
+					k := 1 + r.Intn(5)
+					ops = append(ops, fmt.Sprintf("F:%d", k))
+					fmt.Fprintf(&b, "v = $%d; ", k)
+				default:
+					k := 1 + r.Intn(4)
+					ops = append(ops, fmt.Sprintf("G:%d", k))
+					in.WriteString(line(k))
+					if r.Bool() {
+						b.WriteString("getline x; ")
+					} else {
+						b.WriteString("getline A[1]; ")
+					}
+				}
+			}
+			return b.String()
+		}
+		if i%3 != 0 {
+			src.WriteString("BEGIN { " + body(true) + "}\n")
+		}
+		src.WriteString("{ r++ }\n")
+		for rec := 1; rec <= 1+r.Intn(3); rec++ {
+			k := 1 + r.Intn(4)
+			ops = append(ops, fmt.Sprintf("R:%d", k))
+			in.WriteString(line(k))
+			fmt.Fprintf(&src, "r == %d { %s}\n", rec, body(false))
+		}
+		return seq{ops, src.String(), in.String()}
+	}
+	// the witness of the refuted statement first
+	seqs = append(seqs, seq{[]string{"N", "G:3", "F:1"}, "BEGIN { n = NF; getline x; v = $1 }", "a,b,c\n"})
+	for i := 0; i < n; i++ {
+		seqs = append(seqs, gen(i))
+	}
+	var lines []string
+	for _, s := range seqs {
+		lines = append(lines, "fields\t"+strings.Join(s.ops, " "))
+	}
+	ans, err := hx.ModelEval(o.ModelRun, lines)
+	if err != nil {
+		rep.HarnessError("%v", err)
+		return
+	}
+	for i, s := range seqs {
+		c := api("csv-fields-corr", s.src, s.input)
+		c.InMode = "csv"
+		out := runAPI(c)
+		impl := "ok"
+		if out.Panic != "" {
+			impl = "panic"
+		}
+		rep.CorrEvals++
+		rep.Count("csv-fields-model:" + ans[i])
+		if len(s.ops) > 3 {
+			rep.Distinct("csv-fields:" + strings.Join(s.ops, " "))
+		}
+		if impl != ans[i] {
+			rep.Mismatch(hx.Mismatch{Class: "csv-fields", Input: s.src + " <<< " + s.input, Impl: impl + " " + out.Panic, Model: ans[i] + " for " + strings.Join(s.ops, " ")})
+		}
+		if out.Panic != "" {
+			rep.SearchEvals++
+			rep.Fail(hx.Failure{Class: out.Class(), Oracle: "no-panic", Detail: c.Detail(out)})
 		}
 	}
 }
